@@ -77,11 +77,17 @@ def bounded_search(tier):
 
 
 def run(tier, seed):
-    text, slices, spec = verus.assemble(SPEC, LAYOUT)
-    r = verus.run("c12", text, timeout=300 if tier == "quick" else 900)
     fns = dict(FNS)
     fns["witness_contracts_are_satisfiable"] = "witness.contracts_are_satisfiable"
-    results = verus.results_per_function("C12", r, text, fns, UNIT)
+    try:
+        text, slices, spec = verus.assemble(SPEC, LAYOUT)
+        r = verus.run("c12", text, timeout=300 if tier == "quick" else 900)
+        results = verus.results_per_function("C12", r, text, fns, UNIT)
+    except extract.Undecided as e:
+        # the annotated shape of finalize no longer fits the source: the Verus unit is undecided (never an alarm); the E2 contracts and the
+        # bounded replay on the real crate below still run
+        text, slices, r = "", [], {"json": None, "path": None}
+        results = [Result("C12." + lbl, "E1", "undecided", 0.0, "verus", "unit not assembled: %s" % e, UNIT) for lbl in fns.values()]
     for x in results:
         if x.name.endswith("witness.contracts_are_satisfiable"):
             x.backend = "guard"
